@@ -52,6 +52,7 @@ fn main() {
             "C02" => props::c02::replay(case),
             "C03" => props::c03::replay(case),
             "C04" => props::c04::replay(case),
+            "C05" => props::c05::replay(case),
             "C06" => props::c06::replay(case),
             "C07" => props::c07::replay(case),
             "C08" => props::c08::replay(case),
@@ -76,6 +77,7 @@ fn main() {
         "C02" => props::c02::run(tier),
         "C03" => props::c03::run(tier),
         "C04" => props::c04::run(tier),
+        "C05" => props::c05::run(tier),
         "C06" => props::c06::run(tier),
         "C07" => props::c07::run(tier),
         "C08" => props::c08::run(tier),
